@@ -1425,9 +1425,10 @@ class Covout:
             self.progs[k] = v + self.sigma * np.random.randn(1)[0]
         # Perturb the interactions
         if self._interactions:
-            for k, v in self.interactions.items():
-                self.interactions[k] = v + self.sigma * np.random.randn(1)[0]
-            tokens = ["%s=%.4f" % ("+".join(k), v) for k, v in self.interactions.items()]
+            for k, v in self._interactions.items():
+                self._interactions[k] = v + self.sigma * np.random.randn(1)[0]
+            # The cached interaction outcomes are relative to the baseline, the string representation contains the absolute outcome
+            tokens = ["%s=%r" % ("+".join(sorted(k)), float(v + self.baseline)) for k, v in self._interactions.items()]
             self.imp_interaction = ",".join(tokens)
 
         self.update_outcomes()
